@@ -226,7 +226,15 @@ def one(args):
         'checks': checks,
         'detected': any(c['exit'] == 1 for c in checks.values()),
     }
-    with open(os.path.join(d, 'meta.json'), 'w') as f:
+    mp = os.path.join(d, 'meta.json')
+    if os.path.exists(mp):
+        try:
+            old = json.load(open(mp))
+            if old.get('obsolete'):
+                meta['obsolete'] = old['obsolete']
+        except ValueError:
+            pass
+    with open(mp, 'w') as f:
         json.dump(meta, f, indent=1)
     return meta
 
@@ -258,7 +266,9 @@ def main():
                     f"{c['demo_patched_exit']} | " +
                     ', '.join(f"{p}: {v['exit']} ({v['seconds']}s)"
                               for p, v in m['checks'].items()) +
-                    f" | {m['needs_to_manifest']} |\n")
+                    f" | {m['needs_to_manifest']}" +
+                    (' — OBSOLETE: ' + m['obsolete'] if m.get('obsolete')
+                     else '') + " |\n")
     for m in metas:
         print(m['id'], 'confirmed' if m['confirmed']['ok'] else 'NOT-CONFIRMED',
               {p: v['exit'] for p, v in m['checks'].items()})
